@@ -138,6 +138,7 @@ func finishTimes(in *Input) [][]uint64 {
 				if in.Deadline > f {
 					f = in.Deadline
 				}
+				f += out.Lat
 			}
 			res[i] = append(res[i], f)
 			if out.Kind != "err" && out.Kind != "hang" {
@@ -151,6 +152,16 @@ func finishTimes(in *Input) [][]uint64 {
 
 func tieFree(in *Input) bool {
 	fts := finishTimes(in)
+	// two relays' calls returning at one instant probe the semaphore at one instant
+	seen := map[uint64]bool{}
+	for _, fs := range fts {
+		for _, f := range fs {
+			if seen[f] {
+				return false
+			}
+			seen[f] = true
+		}
+	}
 	for i, fs := range fts {
 		for k, f := range fs {
 			if k >= len(in.Relays[i].Script) {
@@ -159,7 +170,7 @@ func tieFree(in *Input) bool {
 			if kind := in.Relays[i].Script[k].Kind; kind != "ok" && kind != "echo" {
 				continue
 			}
-			// relay i would hand over a block at f: nothing else may happen at that instant
+			// relay i would hand over a block at f: not at the deadline, and no other relay's call starts then
 			if f == in.Deadline {
 				return false
 			}
@@ -168,8 +179,7 @@ func tieFree(in *Input) bool {
 					continue
 				}
 				for _, g := range gs {
-					// another relay's call returning at f, or its next call starting at f
-					if g == f || g+250 == f {
+					if g+250 == f {
 						return false
 					}
 				}
@@ -538,7 +548,7 @@ func genRelays(r *Rand, in *Input) {
 				o.Kind = "err"
 			case 4:
 				o.Kind = "hang"
-				o.Lat = 0
+				o.Lat = uint64(r.Range(0, 40))
 			default:
 				o.Kind = "nil"
 			}
